@@ -128,9 +128,8 @@ class Collision(Exception):
 def erase(kind, entries, lo, hi, a, b, mode, shrink):
     """Returns (list_of_acceptable_entry_lists, span_lo, span_hi).
 
-    Several entry lists can be acceptable: two *different* same-labelled
-    entries that meet at the seam after shrinking may come out merged or not
-    (interpretation D8).  A straddling interval must come out as one."""
+    One entry list is acceptable: a straddling interval comes out as one interval, two *different* same-labelled entries that meet
+    at the seam after shrinking stay two (D8 as revised in DESIGN 9.3)."""
     d = F(b) - F(a)
     if kind == "P":
         kept = [(t, l) for t, l in entries if not (a <= t <= b)]
@@ -173,18 +172,9 @@ def erase(kind, entries, lo, hi, a, b, mode, shrink):
             res.append((s, e, l))
         else:  # starts at or after b
             res.append((F(s) - d if s != b else F(a), F(e) - d, l))
+    # two *different* entries that come to meet at the seam stay two entries, also when they carry the same label: only the two
+    # pieces of one straddling interval come out as one (the annotation outside the region is unchanged)
     alts = [res]
-    # optional merge of two different same-labelled entries meeting at the seam (meeting: exactly, or - the shifted start being a
-    # computed value - within rounding of the seam)
-    import math
-
-    tol = F(math.ulp(max(abs(float(v)) for v in (a, b, lo, hi)) or 1.0)) * 4
-    for i in range(len(res) - 1):
-        x, y = res[i], res[i + 1]
-        if abs(F(x[1]) - F(a)) <= tol and abs(F(y[0]) - F(a)) <= tol and x[2] == y[2]:
-            merged = res[:i] + [(x[0], y[1], x[2])] + res[i + 2:]
-            alts.append(merged)
-            break
     return alts, lo, F(hi) - d
 
 
